@@ -38,9 +38,10 @@
 //!       ack    = how many of these had been issued when the answer left the device (`-`: no answer)
 //!       fs     = i | a<fabric>:<noc flag>
 //!       cells  = ... R=<resumption cache in memory> ... K=<resumption cache as STORED: - absent, 0 empty, ! unreadable>
+//!                S=<subscription table in memory> M=<subscription slots as STORED: <slot>:<fabric>.<tag>>
 //!       end, kind, inc[/<f>.<peer>]: log length so far, kind of the operation (`x`: cut by `~j`, the kv ops are the j that
 //!                made it plus those of the start-up), and - not compared with the model, input of the monitor - which
-//!                commissioning each fabric index stands for (`<idx>.<n>+..`) and the session an `H` established
+//!                commissioning each fabric index stands for (`<idx>.<n>+..`) and the session an `H` / subscription a `D` established
 //!   cut-record = <n>|<boot>|<cells>    a fresh device started from the first n key-value operations
 //! Other kinds: R (round trips up to capacity), C (corrupt resumption blobs), K (key census),
 //! I (corrupt blobs of the other structures: informative).
@@ -551,6 +552,26 @@ fn stored_cache_cell(kv: &MemKv) -> String {
     format!("K={}", s)
 }
 
+/// the subscription slots as they are in the STORE: `<slot>:<fabric>.<tag>` in slot order (`!`: a record that does not parse)
+fn stored_subs_cell(kv: &MemKv) -> String {
+    let blobs = kv.blobs();
+    let mut v: Vec<String> = Vec::new();
+    for slot in 0..2048u16 {
+        if let Some(b) = blobs.get(&(PERSISTENT_SUBSCRIPTIONS_START + slot)) {
+            // PersistedSubscription is private: fab_idx, peer_node_id, min_int_secs, ... under the context tags 0, 1, 2
+            let rec = (|| -> Result<(u8, u64, u16), rs_matter::error::Error> {
+                let seq = TLVElement::new(b).structure()?;
+                Ok((seq.find_ctx(0)?.u8()?, seq.find_ctx(1)?.u64()?, seq.find_ctx(2)?.u16()?))
+            })();
+            v.push(match rec {
+                Ok((f, peer, tag)) => format!("{}:{}.{}{}", slot, f, tag, if peer == ADMIN { "" } else { "?" }),
+                Err(_) => format!("{}:!", slot),
+            });
+        }
+    }
+    format!("M={}", if v.is_empty() { "-".to_string() } else { v.join("+") })
+}
+
 fn cells(dev: &Matter<'_>, st: &DevState, app: &App, subs: &[(u32, u8, u64, u16)], kv: &MemKv) -> String {
     let mut v: Vec<String> = Vec::new();
     dev.with_state(|state| {
@@ -573,6 +594,7 @@ fn cells(dev: &Matter<'_>, st: &DevState, app: &App, subs: &[(u32, u8, u64, u16)
     v.push(format!("E={}", scenes_tokens(&app.scenes)));
     v.push(subs_cell(subs));
     v.push(stored_cache_cell(kv));
+    v.push(stored_subs_cell(kv));
     v.join(" ")
 }
 
@@ -1436,6 +1458,10 @@ fn run_incarnation(base: &Base, cm: &mut Ctl, kv: &MemKv, ops: &[Op], start: usi
                 if let Op::Resume(f, p) = &op {
                     // a CASE session was established: its record belongs to the fabric as it is now
                     write!(inc, "/{}.{}", f, p).unwrap();
+                }
+                if let (Op::Subscribe(Sess::C(f), tag), true) = (&op, status == "ok") {
+                    // a subscription was established: it belongs to the fabric as it is now
+                    write!(inc, "/{}.{}", f, tag).unwrap();
                 }
                 recs.borrow_mut().push(OpRec { inc, kind: op_kind(&op), status, kv: kvs, ack, fs: fs_str(&dev), cells: cells(&dev, &st, &app, &dm.verif_subscriptions(), kv), end });
             }
